@@ -18,7 +18,7 @@ Theorem sat_eq_random2 (fb : flat) (b : backend) (ok : bool) (n' : Z) (final : c
   forall q : tseq,
     (exists t, sat t final = true /\ onehot fb t q) <->
     (exists k cand, In k (keys_of fb) /\ decode_key fb k = Some cand /\ accepts fb cand = true /\
-                    tseq_of_run fb cand = q).
+                    cand_seq fb cand = q).
 Proof.
   intros HF1 HR2 Hex HT He Hc Ef q. split.
   - intros (t & St & Ho).
